@@ -17,6 +17,7 @@ from vf.vloop import run_virtual, vsleep_until, HangDetected
 
 ID = "C01"
 LEVEL = "exploration"
+LOGLEVELS = ["default", "debug"]   # every case also runs with the root logger at DEBUG (as --verbose does)
 SHARDS = {"quick": 4, "thorough": 16}
 BUDGET_S = {"quick": 90.0, "thorough": 600.0}
 RULE = ("Histories of incoming messages (kinds x virtual arrival times around the 0.5 s poll "
@@ -45,8 +46,14 @@ KINDS = ["match_result", "match_null", "match_error", "match_scalar", "same_id_r
          "progress", "batch_with_match", "other_error", "int_twin", "match_result2"]
 
 
+# ids of distractor responses are drawn from the ids that other calls of the same process use as their own
+# request id: any state kept between calls and keyed by id (a stash of "unclaimed" responses, a routing table)
+# then shows up as a later call completing although nothing with its id arrived on its own stream
+REUSED_IDS = ["req-1", "123", "007", "-5", "a b", "0", "reuse-7"]
+
+
 def _wire(kind: str, rid: Any, n: int) -> Any:
-    other = f"other-{n}"
+    other = next(i for i in (REUSED_IDS[n % len(REUSED_IDS):] + REUSED_IDS) if i != rid)
     if kind == "match_result":
         return {"jsonrpc": "2.0", "id": rid, "result": {"tag": f"own-{n}", "nested": {"n": None}}}
     if kind == "match_result2":
@@ -345,7 +352,7 @@ def _time_grid(timeout: float, fine: bool) -> List[float]:
     return sorted(set(round(x, 6) for x in g))
 
 
-ID_SHAPES = [None, "req-1", "123", "007", "-5", "a b", "ünï-😀", "0"]
+ID_SHAPES = [None, "req-1", "123", "007", "-5", "a b", "ünï-😀", "0", "reuse-7"]
 PARAMS_SHAPES = [None, {}, {"name": "t", "arguments": {"a": None, "b": [1, {"c": None}]}}]
 
 
